@@ -227,6 +227,15 @@ func CheckRunaway() {
 	}
 }
 
+// scribble overwrites a buffer the caller owns - the slice a read call returned, the slice a write call was given -
+// once the call is over: a file system that keeps or hands out its own storage instead of a copy shows the damage in
+// the next snapshot or read (aliasing monitor).
+func scribble(b []byte) {
+	for i := range b {
+		b[i] ^= 0xa5
+	}
+}
+
 func modeStr(m fs.FileMode) string {
 	t := "f"
 	switch {
@@ -337,18 +346,24 @@ func (e *Env) store(h int, f avfs.File, err error) {
 	e.Files[h] = f
 }
 
-func (e *Env) exec(o Op) Res {
-	v := e.FS
-	perm := fs.FileMode(o.Perm & 0o777)
-	if o.Perm&0o4000 != 0 {
+// permOf converts the twelve Unix bits of an Op into a fs.FileMode.
+func permOf(bits uint32) fs.FileMode {
+	perm := fs.FileMode(bits & 0o777)
+	if bits&0o4000 != 0 {
 		perm |= fs.ModeSetuid
 	}
-	if o.Perm&0o2000 != 0 {
+	if bits&0o2000 != 0 {
 		perm |= fs.ModeSetgid
 	}
-	if o.Perm&0o1000 != 0 {
+	if bits&0o1000 != 0 {
 		perm |= fs.ModeSticky
 	}
+	return perm
+}
+
+func (e *Env) exec(o Op) Res {
+	v := e.FS
+	perm := permOf(o.Perm)
 	switch o.K {
 	case "Mkdir":
 		return res(v.Mkdir(o.P, perm), "")
@@ -411,7 +426,9 @@ func (e *Env) exec(o Op) Res {
 		var werr error
 		if o.Data != "" {
 			var n int
-			n, werr = f.Write([]byte(o.Data))
+			buf := []byte(o.Data)
+			n, werr = f.Write(buf)
+			scribble(buf)
 			val = fmt.Sprintf("w=%d,%s", n, ErrClass(werr))
 		}
 		cerr := f.Close()
@@ -421,7 +438,10 @@ func (e *Env) exec(o Op) Res {
 		}
 		return res(cerr, val)
 	case "WriteFile":
-		return res(v.WriteFile(o.P, []byte(o.Data), perm), "")
+		buf := []byte(o.Data)
+		err := v.WriteFile(o.P, buf, perm)
+		scribble(buf)
+		return res(err, "")
 	case "Stat":
 		fi, err := v.Stat(o.P)
 		if err != nil {
@@ -445,7 +465,9 @@ func (e *Env) exec(o Op) Res {
 		if err != nil {
 			return res(err, "")
 		}
-		return res(nil, dataStr(b))
+		val := dataStr(b)
+		scribble(b)
+		return res(nil, val)
 	case "Readlink":
 		s, err := v.Readlink(o.P)
 		if err != nil {
@@ -555,13 +577,17 @@ func (e *Env) execFile(o Op) Res {
 		n, err := f.ReadAt(b, o.M)
 		return resv(err, fmt.Sprintf("n=%d %s", n, dataStr(b[:max0(n, len(b))])))
 	case "F.Write":
-		n, err := f.Write([]byte(o.Data))
+		buf := []byte(o.Data)
+		n, err := f.Write(buf)
+		scribble(buf)
 		return resv(err, fmt.Sprintf("n=%d", n))
 	case "F.WriteString":
 		n, err := f.WriteString(o.Data)
 		return resv(err, fmt.Sprintf("n=%d", n))
 	case "F.WriteAt":
-		n, err := f.WriteAt([]byte(o.Data), o.N)
+		buf := []byte(o.Data)
+		n, err := f.WriteAt(buf, o.N)
+		scribble(buf)
 		return resv(err, fmt.Sprintf("n=%d", n))
 	case "F.Seek":
 		p, err := f.Seek(o.N, int(o.M))
@@ -574,7 +600,7 @@ func (e *Env) execFile(o Op) Res {
 	case "F.Sync":
 		return res(f.Sync(), "")
 	case "F.Chmod":
-		return res(f.Chmod(fs.FileMode(o.Perm&0o777)), "")
+		return res(f.Chmod(permOf(o.Perm)), "")
 	case "F.Chown":
 		return res(f.Chown(int(o.N), int(o.M)), "")
 	case "F.Chdir":
